@@ -83,54 +83,61 @@ def verify_function(ctx, key, c=None, only_case=None):
         info.update(status="unsupported", detail=str(exc))
         return info
     is_gen = any(isinstance(n, (ast.Yield, ast.YieldFrom)) for n in _own_nodes(fnode))
-    ctx.nl = bool(c.ghost.get("nonlinear")) or ctx.bounded is not None
-    for case in case_splits(c):
-        lab = case_label(case)
-        if only_case is not None and lab != only_case:
-            continue
-        ex = Exec(ctx)
-        st = State(pathid=lab)
-        try:
-            env = make_params(ex, c, case, st)
-            # bind in signature order, apply real defaults for parameters the contract omits
-            sig = [a.arg for a in fnode.args.args]
-            fr = Frame(key, mod, cls, fnode, c)
-            ex.frames.append(fr)
-            missing = [a for a in sig if a not in env]
-            if missing:
-                full = ex.bind_args(fnode, [], dict(env), st)
-                env = full
-            st.env = dict(env)
-            for i, r in enumerate(c.requires):
-                f = ex.spec_formula(r, dict(env), st)
-                st.assume(_b(f))
-            for ln in c.lemmas:
-                if isinstance(ln, tuple):
-                    ln, b = ln
-                    bind = {k: ex.spec_value(v, dict(env), st) for k, v in b.items()}
-                else:
-                    bind = None
-                for f in lemma_facts(ex, ln, st, bind):
-                    st.assume(f)
-            ex.oblig("pre_sat", "requires", st, z3.BoolVal(True), expect="sat")
-            entry = st.fork()
-            fr.entry_state = entry
-            ctx.entries[lab] = (dict(env), entry, case)
-            if is_gen:
-                st.ghost["out"] = (0, lambda k: (_ for _ in ()).throw(Unsupported("read of empty generator output")))
-                for vname, mk in c.ghost.items():
-                    st.ghost["view_" + vname] = mk(ex, st, init=True)
-            outs = ex.block(fnode.body, [st])
-            info["cases"] += 1
-            for o in outs:
-                info["paths"] += 1
-                finish_path(ex, c, env, entry, o, is_gen)
-        except Unsupported as exc:
-            info.update(status="unsupported", detail="%s [%s]" % (exc, lab))
-            info["trace"] = traceback.format_exc()
-            return info
-        finally:
-            ex.frames[:] = []
+    nl_clauses = set(c.ghost.get("nonlinear_clauses", ()))
+    passes = [(bool(c.ghost.get("nonlinear")) or ctx.bounded is not None, None)]
+    if nl_clauses and ctx.bounded is None:
+        passes = [(False, ("skip", nl_clauses)), (True, ("only", nl_clauses))]
+    for nl, clause_sel in passes:
+      ctx.nl = nl
+      ctx.clause_sel = clause_sel
+      for case in case_splits(c):
+          lab = case_label(case)
+          if only_case is not None and lab != only_case:
+              continue
+          ex = Exec(ctx)
+          st = State(pathid=lab + ("~nl" if clause_sel and clause_sel[0] == "only" else ""))
+          try:
+              env = make_params(ex, c, case, st)
+              # bind in signature order, apply real defaults for parameters the contract omits
+              sig = [a.arg for a in fnode.args.args]
+              fr = Frame(key, mod, cls, fnode, c)
+              ex.frames.append(fr)
+              missing = [a for a in sig if a not in env]
+              if missing:
+                  full = ex.bind_args(fnode, [], dict(env), st)
+                  env = full
+              st.env = dict(env)
+              for i, r in enumerate(c.requires):
+                  f = ex.spec_formula(r, dict(env), st)
+                  st.assume(_b(f))
+              for ln in c.lemmas:
+                  if isinstance(ln, tuple):
+                      ln, b = ln
+                      bind = {k: ex.spec_value(v, dict(env), st) for k, v in b.items()}
+                  else:
+                      bind = None
+                  for f in lemma_facts(ex, ln, st, bind):
+                      st.assume(f)
+              ex.oblig("pre_sat", "requires", st, z3.BoolVal(True), expect="sat")
+              entry = st.fork()
+              fr.entry_state = entry
+              ctx.entries[lab] = (dict(env), entry, case)
+              if is_gen:
+                  st.ghost["out"] = (0, lambda k: (_ for _ in ()).throw(Unsupported("read of empty generator output")))
+                  for vname, mk in c.ghost.items():
+                      if callable(mk):
+                          st.ghost["view_" + vname] = mk(ex, st, init=True)
+              outs = ex.block(fnode.body, [st])
+              info["cases"] += 1
+              for o in outs:
+                  info["paths"] += 1
+                  finish_path(ex, c, env, entry, o, is_gen)
+          except Unsupported as exc:
+              info.update(status="unsupported", detail="%s [%s]" % (exc, lab))
+              info["trace"] = traceback.format_exc()
+              return info
+          finally:
+              ex.frames[:] = []
     if info["cases"] == 0:
         info.update(status="unsupported", detail="no case executed")
     return info
@@ -170,14 +177,27 @@ def finish_path(ex, c, env, entry, o, is_gen):
     else:
         result = o.ret if o.ctl == "return" else None
     o.ctl = None
+    like = getattr(c.returns, "like", None)
+    if like is not None and not is_gen:
+        tok, n = ex.index_of(env.get(like), entry)
+        rv = o.get(result)
+        ok = isinstance(rv, Vec) and rv.idx is not None and (
+            rv.idx is tok or (isinstance(rv.idx, RangeIdx) and isinstance(tok, RangeIdx)))
+        ex.oblig("result_index", "same_index_as_" + like, o,
+                 (to_z3(rv.n) == to_z3(n)) if ok else z3.BoolVal(False))
     senv = dict(env)
     senv["result"] = result
     for kname, v in o.ghost.items():
         if kname.startswith("view_"):
             senv[kname] = v
+    sel = getattr(ex.ctx, "clause_sel", None)
     for lab, text in c.ensures:
+        if sel and ((sel[0] == "skip" and lab in sel[1]) or (sel[0] == "only" and lab not in sel[1])):
+            continue
         f = ex.spec_formula(text, senv, o, old_st=entry)
         ex.oblig("post", lab, o, _b(f))
+    if sel and sel[0] == "only":
+        return
     # frame: every heap object reachable from a parameter and not in `modifies` is unchanged
     for pname, pv in env.items():
         if pname in c.modifies:
@@ -308,6 +328,8 @@ def verify_lemma(ctx, name):
         ctx.used_trusted.add("lemma:" + name)
         return info
     ex = Exec(ctx)
+    ctx.nl = bool(lm.nl)
+    ctx.clause_sel = None
     ex.frames.append(Frame("lemma::" + name, None, None, None, None))
     try:
         st = State()
